@@ -247,7 +247,7 @@ func subsetStr(t *rapid.T, pool []string, label string) []string {
 
 func genFiles(t *rapid.T, label string, allowInner bool) []FileSpec {
 	n := rapid.IntRange(1, 4).Draw(t, label+"_nfiles")
-	if rapid.IntRange(0, 29).Draw(t, label+"_emptytar") == 0 {
+	if uniformInt(t, label+"_emptytar", 40) == 0 {
 		return []FileSpec{} // a tar without entries (an "empty" layer as old builders emit it)
 	}
 	idx := rapid.Permutation(intRange(len(filePool))).Draw(t, label+"_perm")
@@ -311,7 +311,7 @@ func genHist(t *rapid.T, label string, empty bool, seq int) HistSpec {
 	} else {
 		h.CreatedBy = rapid.SampledFrom(createdPool).Draw(t, label+"_hby")
 	}
-	h.NoCreated = rapid.IntRange(0, 24).Draw(t, label+"_hnocreated") == 0
+	h.NoCreated = uniformInt(t, label+"_hnocreated", 60) == 0
 	// a unique suffix makes every entry identifiable (history alignment oracle)
 	h.CreatedBy += fmt.Sprintf(" #%s.%d", label, seq)
 	return h
@@ -337,7 +337,7 @@ func genAlignedHist(t *rapid.T, label string, n int, trailing bool) []HistSpec {
 func genImage(t *rapid.T, label, family, arch string, hasBase bool) ImageSpec {
 	im := ImageSpec{Family: family, Arch: arch}
 	n := rapid.IntRange(1, 4).Draw(t, label+"_nlayers")
-	if rapid.IntRange(0, 14).Draw(t, label+"_nolayers") == 0 || (hasBase && rapid.IntRange(0, 3).Draw(t, label+"_onlybase") == 0) {
+	if uniformInt(t, label+"_nolayers", 25) == 0 || (hasBase && uniformInt(t, label+"_onlybase", 5) == 0) {
 		n = 0
 	}
 	for i := 0; i < n; i++ {
@@ -354,7 +354,7 @@ func genImage(t *rapid.T, label, family, arch string, hasBase bool) ImageSpec {
 			if rapid.IntRange(0, 11).Draw(t, ll+"_foreign") == 0 && !(family == "docker" && l.Comp != "gzip") {
 				l.Foreign = true
 				l.Data = false
-				l.ForeignAbsent = rapid.IntRange(0, 2).Draw(t, ll+"_foreignabsent") == 0
+				l.ForeignAbsent = uniformInt(t, ll+"_foreignabsent", 3) == 0
 			}
 		}
 		im.Layers = append(im.Layers, l)
@@ -374,7 +374,7 @@ func genImage(t *rapid.T, label, family, arch string, hasBase bool) ImageSpec {
 	im.Volumes = subsetStr(t, volPool, label+"_vol")
 	im.ConfigData = rapid.IntRange(0, 9).Draw(t, label+"_cfgdata") == 0
 	im.Pretty = rapid.Bool().Draw(t, label+"_pretty")
-	im.NoMTField = family == "oci" && rapid.IntRange(0, 9).Draw(t, label+"_nomt") == 0
+	im.NoMTField = family == "oci" && uniformInt(t, label+"_nomt", 12) == 0
 	if hasBase {
 		im.UseBase = rapid.IntRange(0, 9).Draw(t, label+"_usebase") != 0
 	}
@@ -443,8 +443,14 @@ func gen(t *rapid.T) Case {
 			c.IndexAnnots = subsetPairs(t, annotPool, "idxann")
 		}
 		c.ChildData = rapid.IntRange(0, 9).Draw(t, "childdata") == 0
-		c.IdxNoMT = c.Index == "oci" && rapid.IntRange(0, 9).Draw(t, "idxnomt") == 0
-		c.Nested = rapid.IntRange(0, 11).Draw(t, "nested") == 0
+		c.IdxNoMT = c.Index == "oci" && uniformInt(t, "idxnomt", 12) == 0
+		c.Nested = uniformInt(t, "nested", 12) == 0
+		// a body without mediaType is typed by its first entry (documented duck typing): only OCI children
+		for _, im := range c.Images {
+			if im.Family != "oci" {
+				c.IdxNoMT = false
+			}
+		}
 		c.IndexPretty = rapid.Bool().Draw(t, "indexpretty")
 		c.Attest = rapid.IntRange(0, 4).Draw(t, "attest") == 0
 	}
@@ -459,7 +465,7 @@ func gen(t *rapid.T) Case {
 		c.Referrers = append(c.Referrers, r)
 	}
 	// audit dimensions
-	if c.Index == "" && c.Base == nil && rapid.IntRange(0, 14).Draw(t, "artifact") == 0 {
+	if c.Index == "" && c.Base == nil && uniformInt(t, "artifact", 12) == 0 {
 		a := &ArtSpec{ArtifactType: rapid.SampledFrom(artTypePool).Draw(t, "art_type"), ConfigMT: rapid.SampledFrom([]string{"empty", "custom"}).Draw(t, "art_cfg"),
 			Annots: subsetPairs(t, annotPool, "art_ann")}
 		for i, n := 0, rapid.IntRange(0, 2).Draw(t, "art_nblobs"); i < n; i++ {
@@ -485,7 +491,7 @@ func gen(t *rapid.T) Case {
 		}
 	}
 	c.FeatA, c.FeatB = genFeat(t, "feata"), genFeat(t, "featb")
-	if rapid.IntRange(0, 19).Draw(t, "cancel") == 0 {
+	if uniformInt(t, "cancel", 20) == 0 {
 		c.CancelAt = rapid.SampledFrom([]int{-1, 1, 2, 3, 5, 8, 13, 21, 34}).Draw(t, "cancelat")
 	}
 	// program
@@ -506,7 +512,12 @@ func gen(t *rapid.T) Case {
 		save := c.Mode
 		c.Mode = "normal"
 		for i, n := 0, rapid.IntRange(0, 2).Draw(t, "nchain"); i < n; i++ {
-			c.Chain = append(c.Chain, genOpt(t, &c, fmt.Sprintf("c%d", i)))
+			o := genOpt(t, &c, fmt.Sprintf("c%d", i))
+			if o.Kind == "external-urls-rm" && c.Tgt != "default" && c.Tgt != "tag" && c.Tgt != "replace" {
+				// documented precondition: the external content was copied into the (result's) repository first
+				continue
+			}
+			c.Chain = append(c.Chain, o)
 		}
 		c.Mode = save
 	}
